@@ -3,6 +3,7 @@ package main
 import (
 	"fmt"
 	"go/token"
+	"go/types"
 	"strings"
 
 	"golang.org/x/tools/go/ssa"
@@ -89,6 +90,8 @@ func runC20(c *Ctx) {
 	ruleMirrorCoverage(c, "R20.1")
 	ruleDecodeRanges(c, "R20.2")
 	ruleDecoderFieldCorrespondence(c, "R20.3")
+	ruleSaveReplacesContent(c, "R20.4")
+	ruleDecodersRejectOnlyUndecodable(c, "R20.5")
 }
 
 // valuesOfType: in fn, the values denoting "the" object of the given struct type: receiver/params of that type, and
@@ -367,6 +370,7 @@ func runC17(c *Ctx) {
 	ruleGroupHash(c, "R17.2")
 	ruleJSONHashCheck(c, "R17.3")
 	ruleHashedFieldsMirrored(c, "R17.4")
+	ruleChainInfoInputs(c, "R17.5") // what is fed to the chain hash is the carried-over seed, not a value that changes with membership
 }
 
 // hashWrites: the values written into hash h in fn (h.Write(x), binary.Write(h, _, x)).
@@ -473,8 +477,59 @@ func ruleChainHashInputs(c *Ctx, rule string) {
 	c.Ok(rule, "chain hash returns the digest of exactly those writes", c.P.Pos(fn.Pos()), okSum, "")
 }
 
+// fixedSizeForBinaryWrite: encoding/binary.Write encodes only fixed-size values; for int, uint, uintptr, string and the
+// like it returns an error and writes nothing, and the hash functions discard that error.
+func fixedSizeForBinaryWrite(t types.Type) bool {
+	switch u := t.Underlying().(type) {
+	case *types.Basic:
+		switch u.Kind() {
+		case types.Bool, types.Int8, types.Int16, types.Int32, types.Int64, types.Uint8, types.Uint16, types.Uint32, types.Uint64,
+			types.Float32, types.Float64, types.Complex64, types.Complex128:
+			return true
+		}
+		return false
+	case *types.Array:
+		return fixedSizeForBinaryWrite(u.Elem())
+	case *types.Slice:
+		return fixedSizeForBinaryWrite(u.Elem())
+	case *types.Pointer:
+		return fixedSizeForBinaryWrite(u.Elem())
+	case *types.Struct:
+		for i := 0; i < u.NumFields(); i++ {
+			if !fixedSizeForBinaryWrite(u.Field(i).Type()) {
+				return false
+			}
+		}
+		return true
+	}
+	return false
+}
+
+// ruleBinaryWritesEncode: every binary.Write feeding a hash in the hash functions is given a value it can encode.
+func ruleBinaryWritesEncode(c *Ctx, rule string, fns ...string) {
+	n := 0
+	for _, key := range fns {
+		fn := c.P.Fn(key)
+		if fn == nil {
+			continue
+		}
+		for _, ci := range callsIn(fn, func(ci ssa.CallInstruction) bool { return calleeName(ci) == "encoding/binary.Write" }) {
+			n++
+			data := ci.Common().Args[2]
+			t := data.Type()
+			if mi, ok := data.(*ssa.MakeInterface); ok {
+				t = mi.X.Type()
+			}
+			c.Ok(rule, fnShort(fn)+" feeds "+trimTemps(pathOf(stripConv(data)))+" to the hash through binary.Write", shortPos(c.P, ci), fixedSizeForBinaryWrite(t),
+				"value type "+t.String()+": binary.Write encodes only fixed-size types, anything else is silently left out of the hash (the error is discarded)")
+		}
+	}
+	c.Floor(rule, "binary.Write calls in the hash functions", n, 4)
+}
+
 func ruleGroupHash(c *Ctx, rule string) {
 	c.ranRules[rule] = true
+	ruleBinaryWritesEncode(c, rule, "common/key.(*Group).Hash", "common/key.(*Node).Hash", "common/chain.(*Info).Hash")
 	fn := c.P.Fn("common/key.(*Group).Hash")
 	if !c.Anchor(rule, "common/key.(*Group).Hash", fn != nil) {
 		return
@@ -779,4 +834,158 @@ func indexedSliceOf(v ssa.Value) ssa.Value {
 		}
 	}
 	return nil
+}
+
+// R20.4: what is read back is what was written last: every handle key.Save encodes into was opened so that the previous
+// content of the file is gone (os.Create, or OpenFile with O_TRUNC, or a fresh temporary file that is renamed).
+func ruleSaveReplacesContent(c *Ctx, rule string) {
+	c.ranRules[rule] = true
+	save := c.P.Fn("common/key.Save")
+	if !c.Anchor(rule, "common/key.Save", save != nil) {
+		return
+	}
+	const oTrunc, oExcl = 0x200, 0x80 // linux values of os.O_TRUNC, os.O_EXCL
+	var truncating func(call *ssa.Call, depth int) (bool, string)
+	truncating = func(call *ssa.Call, depth int) (bool, string) {
+		switch n := calleeName(call); {
+		case n == "os.Create" || n == "os.CreateTemp":
+			return true, n
+		case n == "os.OpenFile":
+			if k, ok := constInt(call.Common().Args[1]); ok {
+				return k&oTrunc != 0 || k&oExcl != 0, fmt.Sprintf("os.OpenFile flags %#x", k)
+			}
+			return false, "os.OpenFile with non-constant flags"
+		default:
+			f := call.Common().StaticCallee()
+			if f == nil || f.Blocks == nil || !inModule(fnPkgPath(f)) || depth > 2 {
+				return false, "handle from " + n
+			}
+			// a module helper: some call inside it must truncate the same path before the handle is returned
+			for _, ci := range callsIn(f, func(ci ssa.CallInstruction) bool { _, isCall := ci.(*ssa.Call); return isCall }) {
+				if ok, d := truncating(ci.(*ssa.Call), depth+1); ok {
+					return true, fnShort(f) + ": " + d
+				}
+			}
+			return false, fnShort(f) + " never truncates the file"
+		}
+	}
+	n := 0
+	for _, ci := range callsIn(save, func(ci ssa.CallInstruction) bool { return strings.HasSuffix(calleeName(ci), "toml.NewEncoder") }) {
+		for _, o := range Origins(ci.Common().Args[0]) {
+			if o.Kind != "call" {
+				continue
+			}
+			var call *ssa.Call
+			switch x := o.Val.(type) {
+			case *ssa.Call:
+				call = x
+			case *ssa.Extract:
+				call, _ = x.Tuple.(*ssa.Call)
+			}
+			if call == nil {
+				continue
+			}
+			n++
+			ok, d := truncating(call, 0)
+			c.Ok(rule, "key.Save writes into a handle opened by "+strings.TrimPrefix(calleeName(call), modPath+"/"), shortPos(c.P, call), ok,
+				d+": the previous content must be gone before the new document is encoded, or a shorter document leaves a stale tail that no longer decodes")
+		}
+	}
+	c.Floor(rule, "handles key.Save encodes into", n, 2)
+}
+
+// R20.5: a decoder refuses only input it cannot decode. Every error a mirror decoder returns must come from a failed
+// sub-decoding (a call that returned an error), a failed type assertion / lookup, a nil input, or a range check (ordering
+// comparison: threshold vs number of nodes, lengths). An error raised because two decoded fields differ from each other
+// rejects records the encoder legitimately writes (the fields are independent in the encoder's source type).
+func ruleDecodersRejectOnlyUndecodable(c *Ctx, rule string) {
+	c.ranRules[rule] = true
+	n := 0
+	for _, sp := range mirrorTable {
+		if sp.kind != "dec" {
+			continue
+		}
+		fn := c.P.Fn(sp.fn)
+		if fn == nil {
+			continue
+		}
+		idx := errResultIndex(fn)
+		if idx < 0 {
+			continue
+		}
+		accepted := func(e edge) bool {
+			for _, cj := range edgeConjuncts(e) {
+				if acceptedDecoderGuard(fn, cj.cond, cj.truth) {
+					return true
+				}
+			}
+			return false
+		}
+		for _, lf := range returnLeaves(fn, idx) {
+			if isNilConst(lf.v) {
+				continue
+			}
+			n++
+			if _, isExt := lf.v.(*ssa.Extract); isExt {
+				continue // a callee's own error, passed on
+			}
+			if call, isCall := lf.v.(*ssa.Call); isCall && call.Common().StaticCallee() != nil && inModule(fnPkgPath(call.Common().StaticCallee())) {
+				continue // result of a module sub-decoder returned directly
+			}
+			ok := mustCross(lf.at, accepted)
+			c.Ok(rule, fnShort(fn)+" rejects its input", shortPos(c.P, lf.at), ok,
+				"the error is raised on a path that passed no failed sub-decoding, nil input, failed assertion or range check: it rejects a well-formed record (for instance because two independent fields differ)")
+		}
+	}
+	c.Floor(rule, "error returns of the mirror decoders", n, 10)
+}
+
+// acceptedDecoderGuard: a condition under which a decoder may legitimately refuse its input.
+func acceptedDecoderGuard(fn *ssa.Function, cond ssa.Value, truth bool) bool {
+	// err != nil of some call, x == nil of some input
+	if x, isEq, okn := nilTest(cond); okn {
+		if isErrorType(x.Type()) {
+			return isEq != truth
+		}
+		return isEq == truth
+	}
+	// !ok of a comma-ok
+	if ex, isEx := cond.(*ssa.Extract); isEx && !truth {
+		switch ex.Tuple.(type) {
+		case *ssa.TypeAssert, *ssa.Lookup:
+			return true
+		}
+	}
+	// range checks
+	if _, _, _, isOrd := ordForm(cond, truth); isOrd {
+		return true
+	}
+	// comparison with a constant (empty string, zero length, ...)
+	if b, isB := cond.(*ssa.BinOp); isB && b.Op == token.EQL {
+		_, xc := b.X.(*ssa.Const)
+		_, yc := b.Y.(*ssa.Const)
+		if xc || yc {
+			return true
+		}
+	}
+	// comparison with an expectation handed in by the caller (a parameter other than the record being decoded)
+	if b, isB := cond.(*ssa.BinOp); isB && b.Op == token.EQL {
+		for _, side := range []ssa.Value{b.X, b.Y} {
+			for _, o := range Origins(side) {
+				if p, isP := o.Val.(*ssa.Parameter); isP && o.Kind == "param" && fn.Signature.Recv() == nil && len(fn.Params) > 1 && p != fn.Params[0] {
+					return true
+				}
+				if o.Kind == "field" {
+					if root, okr := rootedInParam(o.Val); okr && fn.Signature.Recv() == nil && len(fn.Params) > 1 && root != fn.Params[0] {
+						return true
+					}
+				}
+			}
+		}
+	}
+	// boolean helper results (errors.Is, bytes.Equal on an embedded checksum, ...)
+	if _, isCall := cond.(*ssa.Call); isCall {
+		return true
+	}
+	return false
 }
